@@ -84,6 +84,21 @@ func (fc *FnCtx) addrToRef(a *Addr) *Term {
 	if a.Kind == aHeap && len(a.Path) == 0 && (strings.HasPrefix(a.Key, "C:") || strings.HasPrefix(a.Key, "E:")) {
 		return a.Ref
 	}
+	// pointer to an element of a slice/array of scalars: a first-class reference elem!T(arr, idx); loads and
+	// stores through pointers of that type then distinguish element pointers from cell pointers by tag
+	if a.Kind == aElem && len(a.Path) == 0 {
+		if _, isS := isStructType(a.RootType); !isS {
+			es := fc.so.Sort(a.RootType)
+			if fc.eptr == nil {
+				fc.eptr = map[string]types.Type{}
+			}
+			if _, ok := fc.eptr[es]; !ok {
+				fc.eptr[es] = a.RootType
+				fc.newKey = true
+			}
+			return fc.elemRef(a.Ref, a.Idx, a.RootType)
+		}
+	}
 	// interior pointer: fresh, and remember that the root may be written through it
 	r := fc.tb.Fresh("iptr", "Ref")
 	fc.hyps = append(fc.hyps, fc.tb.Not(fc.tb.Eq(r, fc.tb.Const("null", "Ref")))) // an address is never nil
@@ -190,6 +205,12 @@ func (fc *FnCtx) loadRoot(a *Addr, st *State) *Term {
 	case aHeap:
 		srt := fc.so.Sort(a.RootType)
 		m := fc.heapGet(st, a.Key, ArraySort("Ref", srt))
+		if et, ok := fc.eptr[srt]; ok && a.Key == "C:"+srt {
+			fn := fc.so.ElemFn(et)
+			em := fc.heapGet(st, "E:"+srt, ArraySort("Ref", ArraySort("Int", srt)))
+			isElem := tb.Eq(tb.App("emb_tag", "Int", a.Ref), tb.Int(int64(fc.so.embIDs[fn])))
+			return tb.Ite(isElem, tb.Select(tb.Select(em, tb.App("unarr"+fn, "Ref", a.Ref)), tb.App("unidx"+fn, "Int", a.Ref)), tb.Select(m, a.Ref))
+		}
 		return tb.Select(m, a.Ref)
 	case aElem:
 		srt := fc.so.Sort(a.RootType)
@@ -209,6 +230,15 @@ func (fc *FnCtx) storeRoot(a *Addr, st *State, v *Term) {
 	case aHeap:
 		srt := fc.so.Sort(a.RootType)
 		m := fc.heapGet(st, a.Key, ArraySort("Ref", srt))
+		if et, ok := fc.eptr[srt]; ok && a.Key == "C:"+srt {
+			fn := fc.so.ElemFn(et)
+			em := fc.heapGet(st, "E:"+srt, ArraySort("Ref", ArraySort("Int", srt)))
+			isElem := tb.Eq(tb.App("emb_tag", "Int", a.Ref), tb.Int(int64(fc.so.embIDs[fn])))
+			arr, idx := tb.App("unarr"+fn, "Ref", a.Ref), tb.App("unidx"+fn, "Int", a.Ref)
+			fc.heapSet(st, "E:"+srt, tb.Ite(isElem, tb.Store(em, arr, tb.Store(tb.Select(em, arr), idx, v)), em))
+			fc.heapSet(st, a.Key, tb.Ite(isElem, m, tb.Store(m, a.Ref, v)))
+			return
+		}
 		fc.heapSet(st, a.Key, tb.Store(m, a.Ref, v))
 	case aElem:
 		srt := fc.so.Sort(a.RootType)
@@ -391,6 +421,9 @@ func (fc *FnCtx) execInstr(in ssa.Instruction, st *State) {
 	case *ssa.Store:
 		a := fc.ptrAddr(fc.val(in.Addr, st), in.Addr.Type(), st)
 		v := fc.term(fc.val(in.Val, st))
+		if a.Kind != aLocal {
+			fc.noteEptrLeak(in.Val.Type())
+		}
 		fc.store(a, st, v)
 	case *ssa.UnOp:
 		fc.regs[in] = fc.unop(in, st)
@@ -1034,4 +1067,21 @@ func (fc *FnCtx) typeAssert(in *ssa.TypeAssert, st *State) Val {
 	}
 	fc.boundsCheck(st, ok, "typeassert")
 	return v
+}
+
+// noteEptrLeak: a pointer that may be an element pointer is stored into the heap: from now on every call
+// may write the element storage of that sort through it.
+func (fc *FnCtx) noteEptrLeak(t types.Type) {
+	if len(fc.eptr) == 0 {
+		return
+	}
+	if p, ok := types.Unalias(t).Underlying().(*types.Pointer); ok {
+		es := fc.so.Sort(p.Elem())
+		if _, ok := fc.eptr[es]; ok {
+			if fc.eptrLeaked == nil {
+				fc.eptrLeaked = map[string]bool{}
+			}
+			fc.eptrLeaked[es] = true
+		}
+	}
 }
